@@ -255,6 +255,12 @@ func TestC14Rapid(t *testing.T) {
 				} else {
 					perm := rapid.Permutation(allNames).Draw(t, "order")
 					req = perm[:rapid.IntRange(1, len(perm)).Draw(t, "nReq")]
+					if prevReq != nil && len(prevReq) <= len(perm) && rapid.Bool().Draw(t, "reuseRequestSlice") {
+						// the caller fills the slice it used for the previous request with other names and passes it again
+						copy(prevReq, perm[:len(prevReq)])
+						req = prevReq
+						rec.Label("request-slice-reused-with-other-names")
+					}
 					o = gen.OCISpec(t, "oci", gen.OCIOpts{DevPaths: []string{"/dev/a", "/dev/f0d0n0", "/dev/f1s0"}})
 				}
 				before := gen.CloneOCI(o)
